@@ -45,8 +45,28 @@ func buildPlan(env *runner.Env) {
 	}
 	ueTargets = nil
 	for _, k := range []string{"avc-sps", "avc-pps", "avc-slice", "hevc-vps", "hevc-sps", "hevc-pps", "hevc-slice", "avc-sei", "hevc-sei"} {
-		l := seeds.kind(k)
-		max := pick(6, 40)
+		// interleave hand-built seeds (HRD, FMO, weights ...) with the real ones
+		var hb, real []seed
+		for _, sd := range seeds.kind(k) {
+			if strings.HasPrefix(sd.name, "handbuilt:") {
+				hb = append(hb, sd)
+			} else {
+				real = append(real, sd)
+			}
+		}
+		var l []seed
+		for i := 0; i < len(hb) || i < len(real); i++ {
+			if i < len(hb) {
+				l = append(l, hb[i])
+			}
+			if i < len(real) {
+				l = append(l, real[i])
+			}
+		}
+		max := pick(10, 40)
+		if k == "avc-pps" {
+			max = pick(14, 40) // all slice group map types
+		}
 		if len(l) > max {
 			l = l[:max]
 		}
@@ -56,12 +76,12 @@ func buildPlan(env *runner.Env) {
 		{"trunc", truncCount()},
 		{"const", constCount()},
 		{"sei-short", seiShortCount()},
-		{"ue", len(ueTargets) * uePositions * pick(1, 8)},
-		{"chain", pick(3000, 300000)},
-		{"flip", pick(12000, 2400000)},
-		{"lenprefix", pick(2000, 150000)},
-		{"splice", pick(2000, 150000)},
-		{"stream", pick(800, 40000)},
+		{"ue", len(ueTargets) * uePositions * pick(2, 4)},
+		{"chain", pick(3000, 100000)},
+		{"flip", pick(12000, 600000)},
+		{"lenprefix", pick(2000, 50000)},
+		{"splice", pick(2000, 50000)},
+		{"stream", pick(800, 10000)},
 	}
 	planTotal = 0
 	for _, p := range plan {
@@ -392,15 +412,16 @@ func genUE(x *runCtx, sub int) {
 	// killing the worker; the lethal ones (>= 2^24: loops of 2^31.. iterations
 	// or multi-GiB allocations) only for a sampled subset
 	var v uint64
-	if rep == 0 && (pos+int(runner.HashStr(sd.name)%16))%16 == 0 {
+	switch {
+	case rep%2 == 0:
+		// values that show count-driven allocation without killing anything
+		v = ueValues[1+r.Intn(2)]
+	case (pos+int(runner.HashStr(sd.name)%8)+rep/2)%8 == 0:
+		// sampled subset: values that only show as a hang or a multi-GiB allocation
 		v = ueValues[4+r.Intn(4)]
-	} else if rep == 0 {
-		v = ueValues[r.Intn(3)]
-	} else {
-		v = ueValues[r.Intn(4)]
-		if rep >= 2 && r.Chance(1, 6) {
-			v = ueValues[4+r.Intn(4)]
-		}
+	default:
+		// small values: uint8/uint16 truncation and table-size limits
+		v = []uint64{255, 256, 1 << 16, 65535, 32, 64}[r.Intn(6)]
 	}
 	insert := r.Bool()
 	w := &bitw.W{}
